@@ -351,10 +351,12 @@ func (d *Decoder) scan(data []byte, atEOF bool) (advance int, token []byte, err 
 
 	// Look for new blocks
 	switch l := startsBlockQuote(data); {
-	case l > 0 && l == len(data) && !atEOF:
+	case l > 0 && !atEOF && (l == len(data) || !utf8.FullRune(data[l:])):
 		// The whitespace after the quote directive is part of the directive
-		// token; if everything we have so far is the directive we do not know
-		// where it ends yet, so ask for more data.
+		// token; if everything we have so far is the directive (or the directive
+		// followed by the first bytes of a multi-byte character that may turn
+		// out to be whitespace) we do not know where it ends yet, so ask for more
+		// data.
 		return 0, nil, nil
 	case l > 0 && !d.quoteStarted:
 		// If we haven't yet consumed our block quote start token, do so.
